@@ -53,6 +53,7 @@ import (
 	"net"
 	"os"
 	"os/exec"
+	"runtime"
 	"sort"
 	"strconv"
 	"strings"
@@ -306,6 +307,8 @@ type c07Delivery struct {
 }
 
 type c07Result struct {
+	known     string // id of a known finding this run ran into (the scenario is re-run)
+	where     string // where the transport's and the stomp client's goroutines are parked when Unsubscribe hangs
 	delivered []c07Delivery
 	cb, errs  int
 	unsub     string // none | ok | blocked | err
@@ -422,6 +425,62 @@ func c07Foreign(topic string, tag int) string {
 		return topic + "x"
 	}
 	return topic[:len(topic)-1]
+}
+
+const c07KnownLostWakeup = "gostomp-unsubscribe-lost-wakeup"
+
+// c07LostWakeup recognises go-stomp v2.1.4's own defect (KNOWN_FINDINGS.txt): Subscription.closeChannel
+// stores the closed state and calls closeCond.Broadcast() WITHOUT holding closeMutex, so a
+// Subscription.Unsubscribe that has just tested the state and not yet parked in closeCond.Wait() misses
+// the wake-up and waits forever although the subscription IS closed. Signature: a goroutine parked in
+// sync.(*Cond).Wait under stomp.(*Subscription).Unsubscribe while no stomp.(*Subscription).readLoop
+// goroutine exists any more (it has processed the RECEIPT and returned). In frugal's own hang (DESIGN §8
+// row 17) the readLoop is alive, blocked on its send to sub.C.
+func c07LostWakeup() bool {
+	buf := make([]byte, 1<<20)
+	buf = buf[:runtime.Stack(buf, true)]
+	waiting := false
+	for _, g := range strings.Split(string(buf), "\n\n") {
+		if strings.Contains(g, "stomp.(*Subscription).readLoop") {
+			return false
+		}
+		if strings.Contains(g, "sync.(*Cond).Wait") && strings.Contains(g, "stomp.(*Subscription).Unsubscribe") {
+			waiting = true
+		}
+	}
+	return waiting
+}
+
+// c07Stacks lists, per goroutine that is inside lib/go or the stomp client, the innermost frames
+// (function names only): a diagnosis attached to a hung Unsubscribe.
+func c07Stacks() string {
+	buf := make([]byte, 1<<20)
+	buf = buf[:runtime.Stack(buf, true)]
+	var out []string
+	for _, g := range strings.Split(string(buf), "\n\n") {
+		if !strings.Contains(g, "go-stomp/stomp") && !strings.Contains(g, "frugal/lib/go.") {
+			continue
+		}
+		var fns []string
+		for _, l := range strings.Split(g, "\n") {
+			if strings.HasPrefix(l, "\t") || strings.HasPrefix(l, "goroutine ") || strings.HasPrefix(l, "created by") {
+				continue
+			}
+			if k := strings.LastIndex(l, "("); k > 0 {
+				l = l[:k]
+			}
+			if k := strings.LastIndex(l, "/"); k >= 0 {
+				l = l[k+1:]
+			}
+			fns = append(fns, l)
+			if len(fns) == 5 {
+				break
+			}
+		}
+		out = append(out, strings.Join(fns, "<"))
+	}
+	sort.Strings(out)
+	return strings.Join(out, " | ")
 }
 
 // c07Stalled runs f under recover; it reports "blocked" when f has not returned and no subscriber
@@ -618,7 +677,13 @@ func c07Run(s c07Scn) *c07Result {
 			switch {
 			case o == "blocked":
 				res.unsub = "blocked"
-				fail("Unsubscribe did not return (no progress within the watchdog)")
+				res.where = c07Stacks()
+				if c07LostWakeup() {
+					// not frugal's: KNOWN_FINDINGS gostomp-unsubscribe-lost-wakeup
+					res.known = c07KnownLostWakeup
+				} else {
+					fail("Unsubscribe did not return (no progress within the watchdog)")
+				}
 			case o != "":
 				res.unsub = o
 				fail("Unsubscribe %s", o)
@@ -628,7 +693,7 @@ func c07Run(s c07Scn) *c07Result {
 			default:
 				res.unsub = "ok"
 			}
-			if io := <-isC; io != "" {
+			if io := <-isC; io != "" && res.known == "" {
 				fail("IsSubscribed %s while Unsubscribe was running", io)
 			}
 			if res.unsub == "ok" {
@@ -638,7 +703,7 @@ func c07Run(s c07Scn) *c07Result {
 				}
 			}
 		}
-		if res.unsub == "blocked" {
+		if res.unsub == "blocked" || res.known != "" {
 			break // the subscriber transport is wedged; nothing after this is meaningful
 		}
 	}
@@ -649,9 +714,13 @@ func c07Run(s c07Scn) *c07Result {
 	}
 	barrier()
 	time.Sleep(c07Grace + time.Duration(s.delayUs)*time.Microsecond)
-	if subscribed {
+	if subscribed && res.known == "" {
 		var e error
-		if o := guard(c07Watchdog, func() { e = sub.Unsubscribe() }); o != "" || e != nil {
+		o := c07Stalled(&cbCount, func() { e = sub.Unsubscribe() })
+		if o == "blocked" && c07LostWakeup() {
+			res.where = c07Stacks()
+			res.known = c07KnownLostWakeup
+		} else if o != "" || e != nil {
 			fail("final Unsubscribe: %s %v", o, e)
 		}
 	}
@@ -819,6 +888,8 @@ type c07Out struct {
 	Fails     []string `json:"fails"`
 	Delivered int      `json:"delivered"`
 	Unsub     string   `json:"unsub"`
+	Where     string   `json:"where,omitempty"`
+	Known     string   `json:"known,omitempty"`
 }
 
 func (s c07Scn) childLine() string {
@@ -850,7 +921,7 @@ func runC07Child(r *Rng, n int) {
 		} else {
 			res := c07Run(s)
 			line, real := s.line(res)
-			o = c07Out{Line: line, Real: real, Fails: res.fails, Delivered: len(res.delivered), Unsub: res.unsub}
+			o = c07Out{Line: line, Real: real, Fails: res.fails, Delivered: len(res.delivered), Unsub: res.unsub, Where: res.where, Known: res.known}
 		}
 		b, _ := json.Marshal(o)
 		w.Write(b)
@@ -988,7 +1059,7 @@ func c07Report(s c07Scn, o c07Out) {
 	}
 	Sample(map[string]interface{}{"line": ln, "real": o.Real})
 	if len(o.Fails) > 0 {
-		OracleFail("pub/sub delivery: "+c07Class(o.Fails[0]), map[string]interface{}{"op": strings.SplitN(o.Line, " ", 2)[0], "line": o.Line, "got": o.Real, "all": o.Fails})
+		OracleFail("pub/sub delivery: "+c07Class(o.Fails[0]), map[string]interface{}{"op": strings.SplitN(o.Line, " ", 2)[0], "line": o.Line, "got": o.Real, "all": o.Fails, "goroutines": o.Where})
 	}
 }
 
@@ -1004,12 +1075,44 @@ func c07Class(f string) string {
 	return b.String()
 }
 
+// c07Retry re-runs (up to 3 times) the scenarios that ran into a known finding of the environment and
+// reports the finding; what is left after the retries is reported as it is.
+func c07Retry(scns []c07Scn, outs []c07Out) {
+	for round := 0; round < 3; round++ {
+		var idx []int
+		for i := range outs {
+			if outs[i].Known != "" {
+				idx = append(idx, i)
+			}
+		}
+		if len(idx) == 0 {
+			return
+		}
+		again := make([]c07Scn, len(idx))
+		for k, i := range idx {
+			Known(outs[i].Known, "go-stomp v2.1.4 Subscription.Unsubscribe missed the wake-up of a subscription that IS closed (closeCond.Broadcast without closeMutex): frugal's STOMP Unsubscribe waits forever; goroutines: "+outs[i].Where)
+			Stat("known:" + outs[i].Known)
+			again[k] = scns[i]
+		}
+		re := c07Supervise(again, 2)
+		for k, i := range idx {
+			outs[i] = re[k]
+		}
+	}
+	for i := range outs {
+		if outs[i].Known != "" {
+			outs[i].Fails = append(outs[i].Fails, "Unsubscribe did not return in 4 consecutive runs (each time with the signature of go-stomp's lost wake-up)")
+		}
+	}
+}
+
 func runC07RT(r *Rng, n int) {
 	scns := make([]c07Scn, n)
 	for i := range scns {
 		scns[i] = c07Gen(r)
 	}
 	outs := c07Supervise(scns, 4)
+	c07Retry(scns, outs)
 	for i := range scns {
 		c07Report(scns[i], outs[i])
 	}
@@ -1026,7 +1129,9 @@ func c07ReplayLine(op string, args []string) (string, bool) {
 	if !ok {
 		return "bad-args", true
 	}
-	o := c07Supervise([]c07Scn{s}, 1)[0]
+	outs := c07Supervise([]c07Scn{s}, 1)
+	c07Retry([]c07Scn{s}, outs)
+	o := outs[0]
 	real := o.Real
 	if op == "psr" && !s.racing() && real != "crashed" {
 		real = "ok"
